@@ -6,6 +6,8 @@ use cairo_lang_utils::CloneableDatabase;
 use cairo_lang_utils::unordered_hash_map::UnorderedHashMap;
 use itertools::Itertools;
 use rayon::iter::{IntoParallelIterator, ParallelIterator};
+#[cfg(cairo_verif)]
+use cairo_lang_utils::verif_par as rayon;
 use salsa::Database;
 
 use crate::debug_info::statements_locations::statements_functions::{
